@@ -27,10 +27,11 @@ closures as arguments of map / and_then / then_with / round_low_part):
     the fuel handed to it is given in LOOP_FUEL below (the proof file shows that it suffices);
   * panicking helpers become `Panic _` results (assert_limited_precision, panic_root_negative, div_rem by zero).
 Atoms with a fixed meaning (the trusted part, all listed in METHODS / CALLS): IBig / usize / isize arithmetic is Z
-arithmetic (`/` on isize = Z.quot, `& 1` = mod 2, `as` casts are the identity, bool as usize = b2z),
+arithmetic (`/` on isize / i128 = Z.quot, `& 1` = mod 2, `^` = Z.lxor, `as` casts are the identity, bool as usize = b2z),
 digit_len = dlen B, split_digits(_ref) = Model.split_digits B, shl_digits(_in_place) = AddModel.shl_digits B,
 Repr::new = Model.normalize B, Context::repr_round(_ref) = LongModel.repr_round_n B, Repr::digits_ub = the abstract
 estimate, R::round_fract / round_ratio / round_low_part = the models of Model.v / the regenerated table,
+isize::abs_diff = Z.abs (a - b), usize::saturating_add = Z.add (the model is unbounded),
 div_rem = (Z.quot, Z.rem), sqrt_rem = (Z.sqrt x, x - (Z.sqrt x)^2), FBig::new(v, ctx) = v.
 """
 import argparse
@@ -206,7 +207,7 @@ class Parser:
         return ("pvar", tok[1])
 
     # ---- expressions
-    LEVELS = [["||"], ["&&"], ["==", "!=", "<", ">", "<=", ">="], ["&"], ["+", "-"], ["*", "/", "%"]]
+    LEVELS = [["||"], ["&&"], ["==", "!=", "<", ">", "<=", ">="], ["^"], ["&"], ["+", "-"], ["*", "/", "%"]]
 
     def expr(self, lvl=0, nostruct=False):
         if lvl == len(self.LEVELS):
@@ -623,6 +624,8 @@ class Exec:
             return Z("Z.quot %s %s" % (par(a[1]), par(b[1])))
         if op == "&" and a[0] == "z" and b == Z("1"):
             return Z("%s mod 2" % par(a[1]))
+        if op == "^" and a[0] == "z" and b[0] == "z":
+            return Z("Z.lxor %s %s" % (par(a[1]), par(b[1])))
         if op in CMPOP and a[0] == "z" and b[0] == "z":
             return ("b", "(%s %s %s)" % (par(a[1]), CMPOP[op], par(b[1])))
         if op == "!=" and a[0] == "z" and b[0] == "z":
@@ -706,6 +709,10 @@ class Exec:
                 return Z("Z.sgn %s" % t)
             if name == "min":
                 return Z("Z.min %s %s" % (t, par(a[0][1])))
+            if name == "abs_diff":          # isize::abs_diff -> usize: |a - b|, never overflows
+                return Z("Z.abs (%s - %s)" % (t, par(a[0][1])))
+            if name == "saturating_add":    # the model is unbounded: saturation is not reached below 2^W
+                return Z("%s + %s" % (t, par(a[0][1])))
             if name == "cmp":
                 return ("cmp", "(%s ?= %s)" % (t, par(a[0][1])))
             if name == "unsigned_abs":
